@@ -241,13 +241,17 @@ def _describe_user(item):
 class Driver(object):
     """Plays events on a Rig and keeps the model in step."""
 
-    def __init__(self, role, seed, rig=None):
-        self.rig = rig if rig is not None else Rig(seed, role=role)
+    def __init__(self, role, seed, rig=None, prebuffer=b'', fin_at_start=False, settle=True):
+        self.rig = rig if rig is not None else Rig(seed, role=role, prebuffer=prebuffer)
         self.model = Model(role)
         self.role = role
         self.history = []
+        self.states = set()
         self.deadline = None
-        self.rig.settle()
+        if fin_at_start:
+            self.rig.peer_fin()
+        if settle:
+            self.rig.settle()
         if role == 'acceptor':
             self.deadline = self.rig.sim.now + ARTIM
         self.rig.wire_take()
@@ -347,6 +351,9 @@ class Driver(object):
             bad.append('close-fd cell=%s socket slot cleared but connection not closed' % cell)
         if rig.timer_running() != model.artim:
             bad.append('artim cell=%s expected_running=%s' % (cell, model.artim))
+        self.states.add('%s/%d/%d/%d/%d' % (rig.state(), rig.timer_running(),
+                                            not rig.provider.raw_pdu,
+                                            rig.sm.dimse_decoder is not None, not rig.sock_gone()))
         # invariants of the statement
         if model.state == 'Sta1' and (model.sock_open or model.artim):
             bad.append('model-inconsistent')
@@ -455,6 +462,16 @@ def cases(tier, seed):
                 e = mm.apply(ev, 0.0)
                 if e['wire']:
                     yield dict(role=role, events=list(pre) + [ev], mode='writefault', seed=seed)
+    # everything the peer sends (and possibly its close) is already waiting when the provider
+    # thread starts: the initial transport-connection indication and the first PDUs are
+    # handled back to back
+    rndp = random.Random('c05p/%d' % seed)
+    pre_events = ['p:rq', 'p:unk', 'p:unk0', 'p:abort2', 'p:data', 'p:relrq', 'p:ac', 'p:rj']
+    for a in pre_events:
+        for fin in (False, True):
+            yield dict(role='acceptor', mode='prestart', burst=[a], fin=fin, seed=seed)
+            for b in ('p:rq', 'p:abort2', 'p:unk', 'p:relrp'):
+                yield dict(role='acceptor', mode='prestart', burst=[a, b], fin=fin, seed=seed)
     n_walk = 1500 if tier == 'quick' else 60000
     for i in range(n_walk):
         yield dict(role='acceptor' if i % 2 else 'requestor', walk=40, mode='quiescent',
@@ -501,6 +518,8 @@ def run_case(case):
         return run_concurrent(case)
     if case.get('mode') == 'writefault':
         return run_writefault(case)
+    if case.get('mode') == 'prestart':
+        return run_prestart(case)
     role = case['role']
     drv = Driver(role, 'c05/%s' % case['seed'])
     viol = []
@@ -544,7 +563,7 @@ def run_case(case):
                                                if rm.lookup(c[0], c[1]) is not None]},
                    sample={'role': role, 'history': list(drv.history),
                            'final_state': drv.rig.state()},
-                   realized=list(drv.history))
+                   realized=list(drv.history), states=sorted(drv.states))
         if viol and events is None:
             # make the case explicit so that it can be shrunk and replayed event by event
             for v in viol:
@@ -747,7 +766,8 @@ def _fin(res, drv, case, viol):
                vsecs=sim.now - 1000.0, stats=st, nontrivial=True,
                sets={'fsm_cells_reached': ['%s,%s' % c for c in cells
                                            if rm.lookup(c[0], c[1]) is not None]},
-               sample={'role': case['role'], 'history': list(drv.history), 'mode': 'concurrent'})
+               sample={'role': case['role'], 'history': list(drv.history), 'mode': case.get('mode')},
+               states=sorted(drv.states))
     return res
 
 
@@ -830,6 +850,43 @@ def run_writefault(case):
                 viol.append(_viol('loop-died cell=(%s,%s+write-fails)' % (state0, ev), role, drv,
                                   case))
         res['stats'] = {'fault.rst_before_sendall': 0 if armed['on'] else 1}
+        return _fin(res, drv, case, viol)
+    finally:
+        drv.close()
+
+
+def run_prestart(case):
+    role = case['role']
+    burst = case['burst']
+    data = b''.join(prims.PEER[e[2:]] for e in burst)
+    drv = Driver(role, 'c05ps/%s/%s/%s' % (case['seed'], '.'.join(burst), case['fin']),
+                 prebuffer=data, fin_at_start=case['fin'], settle=False)
+    viol = []
+    res = {'violations': viol, 'stats': {}}
+    try:
+        rig = drv.rig
+        drv.history = ['~prestart:' + e for e in burst] + (['~p:fin'] if case['fin'] else [])
+        t0 = rig.sim.now
+        settled = rig.settle()
+        m = drv.model
+        ew, eu = [], []
+        for ev in burst + (['p:fin'] if case['fin'] else []):
+            if ev != 'p:fin' and not m.sock_open:
+                continue
+            e = m.apply(ev, t0)
+            ew += e['wire']
+            eu += e['user']
+        if m.artim:
+            drv.deadline = t0 + ARTIM
+        else:
+            drv.deadline = None
+        exp = {'wire': ew, 'user': eu, 'ev': 'prestart:' + '+'.join(burst) +
+               ('+fin' if case['fin'] else '')}
+        for b in drv.compare(exp, settled, 'Sta2'):
+            viol.append(_viol(b, role, drv, case))
+        if not viol:
+            for b in drv.finish():
+                viol.append(_viol(b, role, drv, case))
         return _fin(res, drv, case, viol)
     finally:
         drv.close()
